@@ -958,7 +958,8 @@ fn make_pazip(preset: &str, how: &str, training: &[u8]) -> Result<(PaZipCompress
 }
 
 fn drive_pazip(a: &Args, t: &mut Tracer, acc: &mut Acc) {
-    let maxlen_all = a.get_u64("pzmax", if a.thorough() { 4 << 20 } else { 65536 }) as usize;
+    // quick: 100 000 admits the 96 000-byte dictionary of the "bigtext" corpus as a payload (one global match > 65535 bytes)
+    let maxlen_all = a.get_u64("pzmax", if a.thorough() { 4 << 20 } else { 100_000 }) as usize;
     for preset in ["default", "fast", "high", "balanced", "realtime", "reference", "reference_hash"] {
         for (train, how) in [("text", "direct"), ("other", "direct"), ("text", "builder"), ("all256", "direct"), ("one", "direct"), ("bigtext", "direct")] {
             let variant = format!("{preset}-{how}");
@@ -978,7 +979,12 @@ fn drive_pazip(a: &Args, t: &mut Tracer, acc: &mut Acc) {
                     run.ev(json!({"op":"info","what":"dictionary","text":digest(&dtext),"equals_training":dtext == tr}));
                     // payloads containing the dictionary content use the text of the subject's own "text" corpus, so the
                     // subject trained on the unrelated corpus sees them as foreign data
-                    let ps = payloads(a, maxlen, &if train == "bigtext" { tr.clone() } else { corpus(a.seed, "text") });
+                    let mut ps = payloads(a, maxlen, &if train == "bigtext" { tr.clone() } else { corpus(a.seed, "text") });
+                    if !a.thorough() && train == "text" && how == "direct" && !preset.starts_with("reference") {
+                        // the block-parallel path (inputs of 1 MiB and more) once per preset in the quick tier
+                        let n = 1usize << 20;
+                        ps.push(Payload { cls: format!("text:{n}"), data: text(&mut Rng::new(a.seed).derive("pazip-1m"), n) });
+                    }
                     for p in &ps {
                         let mut out = Vec::new();
                         let r = guard(|| es(c.compress(&p.data, &mut out)));
